@@ -7,7 +7,7 @@
    earlier segment touches it.  [wire_txs bound id cmds evs]: the events added to the wire log are
    exactly the commands [cmds], in order, the k-th one serialized with request id (id + k) mod
    2^16, each answered by acknowledges of at most [bound cmd] bytes. *)
-From Cam Require Import Outcome Bytes Chunks Cmd Ack CmdLayout GenCPLayout Control P_C09 P_C08 P_C06 ManifestSpec P_C14b.
+From Cam Require Import Outcome Bytes Chunks Cmd Ack CmdLayout GenCPLayout Control P_C09 P_C08 P_C06 ManifestSpec P_C14b P_C06b.
 
 (* a read of n bytes at a returns exactly device memory [a, a+n); memory is not modified *)
 Theorem C06_read_exact : forall c w a n pre b m post,
@@ -104,3 +104,65 @@ Theorem C06_big_write_v0_refuted : forall c w a data, c_opened c = true -> 65527
   fst (ctl_write_v0 a data (c, w)) = Err CE_IO.
 Proof. exact big_write_v0_refuted. Qed.
 Print Assumptions C06_big_write_v0_refuted.
+
+(* ---- the session around the transfers (proofs/P_C06b.v) ---------------------------------------------- *)
+
+(* "any negotiated limits": open on a conforming device whose ABRM / SBRM hold the registers
+   (ABRM 0x1C4 capability = cap, 0x1D8 SBRM address = sb, 0x1CC response time; SBRM +4 U3VCP
+   capability, +20 maximum command length = mc, +24 maximum acknowledge length = ma) negotiates
+   exactly mc and ma, performs open / set_halt / clear_halt in that order before the first
+   transaction, leaves the memory alone and ends in a state to which C06_read_memory /
+   C06_write_memory apply *)
+Theorem C06_open_negotiates : forall c w cap sb ucap rtime mc ma,
+  let segs := w_segs w in
+  u_field segs 452 8 cap -> u_field segs 472 8 sb -> sb + 24 < 2 ^ 64 -> u_field segs (sb + 4) 8 ucap ->
+  u_field segs 460 4 rtime -> u_field segs (sb + 20) 4 mc -> u_field segs (sb + 24) 4 ma ->
+  c_opened c = false -> 12 < c_max_ack c < 2 ^ 32 -> 24 <= c_max_cmd c -> 0 <= c_next c < 2 ^ 16 ->
+  1 <= c_retry c -> conf (c_retry c) w -> segs_sep segs -> w_open_err w = None ->
+  12 < ma < 2 ^ 32 -> 24 <= mc ->
+  exists c' w',
+    ctl_open (c, w) = (Ok tt, (c', w')) /\
+    c_opened c' = true /\ c_max_cmd c' = mc /\ c_max_ack c' = ma /\ c_retry c' = c_retry c /\
+    c_abrm c' = abrm_after cap c /\ c_sbrm c' = c_sbrm c /\ c_sirm c' = c_sirm c /\
+    w_segs w' = segs /\ good_conf (c', w') /\
+    exists evs, w_log w' = evs ++ [WClearHalt; WSetHalt; WOpen] ++ w_log w.
+Proof. exact open_negotiates. Qed.
+Print Assumptions C06_open_negotiates.
+
+(* open, then a read anywhere inside the device memory: the memory, unchanged *)
+Theorem C06_session_read : forall c w cap sb ucap rtime mc ma a n d,
+  let segs := w_segs w in
+  u_field segs 452 8 cap -> u_field segs 472 8 sb -> sb + 24 < 2 ^ 64 -> u_field segs (sb + 4) 8 ucap ->
+  u_field segs 460 4 rtime -> u_field segs (sb + 20) 4 mc -> u_field segs (sb + 24) 4 ma ->
+  c_opened c = false -> 12 < c_max_ack c < 2 ^ 32 -> 24 <= c_max_cmd c -> 0 <= c_next c < 2 ^ 16 ->
+  1 <= c_retry c -> conf (c_retry c) w -> segs_sep segs -> w_open_err w = None ->
+  12 < ma < 2 ^ 32 -> 24 <= mc ->
+  mem_read segs a n = Some d ->
+  exists s1 s2, ctl_open (c, w) = (Ok tt, s1) /\ ctl_read a n s1 = (Ok d, s2) /\ w_segs (snd s2) = segs.
+Proof. exact session_read. Qed.
+Print Assumptions C06_session_read.
+
+(* the freshly created handle (ctl_init) on a concrete two-segment device: limits 1024 / 512 *)
+Theorem C06_open_example :
+  exists c' w', ctl_open (ctl_init, ex_open_world) = (Ok tt, (c', w')) /\ c_max_cmd c' = 1024 /\ c_max_ack c' = 512 /\
+                good_conf (c', w').
+Proof. exact open_example. Qed.
+Print Assumptions C06_open_example.
+
+(* what is refused is refused before anything is put on the wire: a failing open, a closed handle,
+   a negotiated command limit below the 24 bytes of a ReadMem command *)
+Theorem C06_open_fails : forall c w e, c_opened c = false -> w_open_err w = Some e ->
+  ctl_open (c, w) = (Err (ce_of_usb e), (c, w_logev w WOpen)).
+Proof. exact open_fails. Qed.
+Print Assumptions C06_open_fails.
+
+Theorem C06_closed_handle : forall c w a n d, c_opened c = false ->
+  ctl_read a n (c, w) = (Err CE_NOT_OPENED, (c, w)) /\ ctl_write a d (c, w) = (Err CE_NOT_OPENED, (c, w)).
+Proof. intros c w a n d H. exact (conj (closed_read c w a n H) (closed_write c w a d H)). Qed.
+Print Assumptions C06_closed_handle.
+
+Theorem C06_small_limit_refused : forall c w a n, c_opened c = true -> 12 < c_max_ack c < 2 ^ 32 -> c_max_cmd c < 24 ->
+  0 <= a -> a + n <= 2 ^ 64 -> 0 < n ->
+  ctl_read a n (c, w) = (Err CE_INVALID_DEVICE, (c, w)).
+Proof. exact small_limit_read. Qed.
+Print Assumptions C06_small_limit_refused.
